@@ -171,7 +171,7 @@ class C44(Prop):
     props_file = "Props/C44.v"
     preamble = ("From Coq Require Import List ZArith QArith.\nImport ListNotations.\n"
                 "From PP Require Import Model.C44.\nOpen Scope Q_scope.\n")
-    n_cases = (150, 3000)
+    n_cases = (1000, 8000)
     design_ref = "DESIGN.md §5 C44"
     level_text = (
         "Coq theorems over Q: exact Cyrus-Beck clipping of a segment by a convex polygon "
